@@ -36,6 +36,10 @@ pub struct Case {
     /// starts, so that poll never enters the kernel.
     #[serde(default)]
     pub prefill: Vec<bool>,
+    /// Instead of blocking, the poller drops the Ring after its non-blocking
+    /// polls while the wakers are (possibly) inside wake().
+    #[serde(default)]
+    pub drop_ring: bool,
     pub tape: Vec<u16>,
 }
 
@@ -57,9 +61,10 @@ impl Property for C11 {
             proptest::collection::vec(1u8..=2, 1..=3),
             proptest::bool::weighted(0.3),
             proptest::collection::vec(proptest::bool::weighted(0.4), 2),
+            proptest::bool::weighted(0.2),
             proptest::collection::vec(any::<u16>(), 0..160),
         )
-            .prop_map(|(mode, zero_polls, wakers, full_queue, prefill, tape)| Case { mode, zero_polls, wakers, full_queue, prefill, tape })
+            .prop_map(|(mode, zero_polls, wakers, full_queue, prefill, drop_ring, tape)| Case { mode, zero_polls, wakers, full_queue, prefill, drop_ring, tape })
             .boxed()
     }
 
@@ -72,7 +77,7 @@ impl Property for C11 {
     }
 
     fn rule() -> &'static str {
-        "proptest programs run under a baton scheduler (one runnable thread; scheduling points at a10's lock/try_lock, kernel-shared loads, tail/head stores, the polling-state swap and fetch_or, and every simulated system call) following a generated choice tape (round-robin afterwards): a poller thread runs Ring::poll(Some(0)) 0..2 times (optionally with a completion already queued, so that the poll never enters the kernel) and then Ring::poll(None) with nothing in flight; 1..3 waker threads call SubmissionQueue::wake() once or twice; rings: default, kernel-thread (a kernel actor consumes, idles with NEED_WAKEUP and is woken by IORING_ENTER_SQ_WAKEUP) and single-issuer (synchronous register path); optionally the submission queue is full of queued entries. Oracle over the scheduler's total order: if some wake() call started after the poller's previous Ring::poll returned (for a previous poll that never entered the kernel: after it started; or there was none), the blocking poll must return; the violating state is the poller parked in io_uring_enter without timeout with no runnable thread. Then, sequentially: wake() after the Ring is dropped must neither panic nor make a system call. Non-trivial = the wake's state change fell between the poller announcing that it polls and its return from the kernel, or between two polls (a context switch inside a10 on both threads). Distinct = (mode, classes, 16-bit case hash)."
+        "proptest programs run under a baton scheduler (one runnable thread; scheduling points at a10's lock/try_lock, kernel-shared loads, tail/head stores, the polling-state swap and fetch_or, and every simulated system call) following a generated choice tape (round-robin afterwards): a poller thread runs Ring::poll(Some(0)) 0..2 times (optionally with a completion already queued, so that the poll never enters the kernel) and then Ring::poll(None) with nothing in flight; 1..3 waker threads call SubmissionQueue::wake() once or twice; rings: default, kernel-thread (a kernel actor consumes, idles with NEED_WAKEUP and is woken by IORING_ENTER_SQ_WAKEUP) and single-issuer (synchronous register path); optionally the submission queue is full of queued entries; optionally the poller drops the Ring instead of blocking, while wake() calls are in progress (every wake() must return). Oracle over the scheduler's total order: if some wake() call started after the poller's previous Ring::poll returned (for a previous poll that never entered the kernel: after it started; or there was none), the blocking poll must return; the violating state is the poller parked in io_uring_enter without timeout with no runnable thread. Then, sequentially: wake() after the Ring is dropped must neither panic nor make a system call. Non-trivial = the wake's state change fell between the poller announcing that it polls and its return from the kernel, or between two polls (a context switch inside a10 on both threads). Distinct = (mode, classes, 16-bit case hash)."
     }
 
     fn assumptions() -> Vec<&'static str> {
@@ -140,9 +145,22 @@ fn run_case(case: &Case, ctx: &mut Ctx) {
         let zero = case.zero_polls.min(2);
         let prefill = case.prefill.clone();
         let fast_path = fast_path_polls.clone();
+        let drop_ring = case.drop_ring && case.mode != Mode::Sqpoll;
         threads.push(Box::new(move || {
             let mut ring = ring_slot.lock().unwrap().take().unwrap();
             for k in 0..=zero {
+                if drop_ring && k == zero {
+                    // Drop the Ring while wake() calls may be in progress.
+                    let r = {
+                        let _s = track::scope(track::TAG_A10);
+                        catch(move || drop(ring))
+                    };
+                    if let Err((m, l)) = r {
+                        errors.lock().unwrap().push(format!("dropping the Ring panicked at {l}: {m}"));
+                    }
+                    done.store(true, Ordering::SeqCst);
+                    return;
+                }
                 let timeout = if k < zero { Some(Duration::ZERO) } else { None };
                 if timeout.is_some() && prefill.get(k as usize).copied().unwrap_or(false) {
                     // The kernel has posted something already (an ignored
@@ -205,7 +223,10 @@ fn run_case(case: &Case, ctx: &mut Ctx) {
                     errors.lock().unwrap().push(format!("wake() panicked at {l}: {m}"));
                 }
             }
-            wd.fetch_add(1, Ordering::SeqCst);
+            if !sched::syscalls_poisoned() {
+                // (Finished on its own, not because the run was cut short.)
+                wd.fetch_add(1, Ordering::SeqCst);
+            }
             drop(sq);
         }));
     }
@@ -272,7 +293,14 @@ fn run_case(case: &Case, ctx: &mut Ctx) {
     let ring = ring_slot.lock().unwrap().take().map(|r| r.0);
 
     if outcome.over_budget {
-        ctx.infra("scheduler step budget exceeded");
+        if case.drop_ring && case.mode != Mode::Sqpoll && poller_done.load(Ordering::SeqCst) && wakers_done.load(Ordering::SeqCst) < nwakers {
+            ctx.violation("C11:wake-never-returns", format!("the Ring was dropped while wake() was being called on another thread; {} of {nwakers} waker threads had not returned from wake() after 30000 scheduling steps (mode {:?})", nwakers - wakers_done.load(Ordering::SeqCst), case.mode));
+        } else {
+            ctx.infra("scheduler step budget exceeded");
+        }
+    }
+    if case.drop_ring {
+        classes.push("ring-dropped-while-waking");
     }
     for p in &outcome.panics {
         ctx.violation("C11:panic", format!("thread panicked: {p}"));
